@@ -25,6 +25,8 @@ use std::time::{Duration, Instant};
 
 const WATCHDOG: Duration = Duration::from_secs(15);
 const NONE: usize = usize::MAX;
+const MAX_SERVERS: usize = 5000;
+const MAX_POOLED_CONNS: usize = 256;
 
 // ------------------------------------------------------------------------------------------
 // wire bodies (own definitions; field names are the wire contract)
@@ -98,6 +100,8 @@ enum ValueCase {
     Rec(Rec),
     /// a sequence whose serialisation fails after `n` elements
     FailSeq(usize),
+    /// … or panics after `n` elements
+    PanicSeq(usize),
 }
 impl Serialize for ValueCase {
     fn serialize<S: serde::Serializer>(&self, s: S) -> Result<S::Ok, S::Error> {
@@ -111,6 +115,13 @@ impl Serialize for ValueCase {
                     seq.serialize_element(&(i as u64))?;
                 }
                 Err(S::Error::custom("injected serialisation failure"))
+            }
+            ValueCase::PanicSeq(n) => {
+                let mut seq = s.serialize_seq(Some(*n + 1))?;
+                for i in 0..*n {
+                    seq.serialize_element(&(i as u64))?;
+                }
+                producer_panic(*n)
             }
         }
     }
@@ -182,7 +193,7 @@ impl Read for ScriptedReader {
             if self.spec.fail_at != NONE && self.pos >= self.spec.fail_at {
                 match self.spec.end {
                     End::Err => return Err(io::Error::other("injected read failure")),
-                    End::Vanish => panic!("injected producer panic"),
+                    End::Vanish => producer_panic(self.spec.data.len() + self.spec.piece),
                     End::Ok => {}
                 }
             }
@@ -192,6 +203,15 @@ impl Read for ScriptedReader {
         out[..n].copy_from_slice(&self.spec.data[self.pos..self.pos + n]);
         self.pos += n;
         Ok(n)
+    }
+}
+
+/// A producer panic with a `&'static str`, a `String` or a non-string payload.
+fn producer_panic(salt: usize) -> ! {
+    match salt % 3 {
+        0 => panic!("injected producer panic"),
+        1 => panic!("{}", format!("injected producer panic {salt}")),
+        _ => std::panic::panic_any(salt as u64),
     }
 }
 
@@ -225,7 +245,7 @@ fn writer_body(spec: Spec) -> BoxedWriter {
         match spec.end {
             End::Ok => Ok(()),
             End::Err => Err(io::Error::other("injected writer failure")),
-            End::Vanish => panic!("injected producer panic"),
+            End::Vanish => producer_panic(spec.data.len() + spec.evs.len()),
         }
     })
 }
@@ -258,17 +278,29 @@ fn make_router(kind: &str, opts: StreamOpts) -> Option<Router> {
 struct Servers {
     rt: tokio::runtime::Runtime,
     map: HashMap<String, SocketAddr>,
+    /// raw connections kept open across cases (one per server): sequences of many streams — clean,
+    /// failed, cancelled — on the SAME connection
+    conns: HashMap<String, Conn>,
+    /// the crate's clients kept across `hl` cases, likewise
+    sync_clients: HashMap<String, Arc<repe::Client>>,
+    async_clients: HashMap<String, repe::AsyncClient>,
+    ws_clients: HashMap<String, repe::WebSocketClient>,
 }
 
 impl Servers {
     fn new() -> Servers {
         let rt = tokio::runtime::Builder::new_multi_thread().worker_threads(4).max_blocking_threads(64).enable_all().build().unwrap();
-        Servers { rt, map: HashMap::new() }
+        Servers { rt, map: HashMap::new(), conns: HashMap::new(), sync_clients: HashMap::new(), async_clients: HashMap::new(), ws_clients: HashMap::new() }
     }
     fn addr(&mut self, srv: &str, kind: &str, comp: u8, chunk: usize, depth: usize, level: i32) -> Option<SocketAddr> {
         let key = format!("{srv}|{kind}|{comp}|{chunk}|{depth}|{level}");
         if let Some(a) = self.map.get(&key) {
             return Some(*a);
+        }
+        // every configuration is a listening server that stays up for the run: bound their number (descriptors,
+        // threads); a case that would need one more is skipped by the generator, never reported
+        if self.map.len() >= MAX_SERVERS {
+            return None;
         }
         let opts = StreamOpts {
             chunk_bytes: chunk,
@@ -572,10 +604,11 @@ fn build(p: &Params) -> Option<Built> {
                 "str" => ValueCase::Str(String::from_utf8(content(p.seed, p.len).iter().map(|b| b'a' + (b % 26)).collect()).unwrap()),
                 "rec" => ValueCase::Rec(make_rec(p.seed, p.len)),
                 "failseq" => ValueCase::FailSeq(p.len),
+                "panicseq" => ValueCase::PanicSeq(p.len),
                 _ => return None,
             };
             let mut logical = Vec::new();
-            if p.variant != "failseq" {
+            if p.variant != "failseq" && p.variant != "panicseq" {
                 beve::to_writer_streaming(&mut logical, &v).ok()?;
             }
             spec.value = Some(v);
@@ -634,7 +667,18 @@ fn stream_tok(bytes: &[u8], is_pattern: bool) -> String {
 
 static RES_COUNTER: AtomicU64 = AtomicU64::new(0);
 fn register(spec: Spec) -> String {
-    let name = format!("res-{}", RES_COUNTER.fetch_add(1, Ordering::Relaxed));
+    let n = RES_COUNTER.fetch_add(1, Ordering::Relaxed);
+    let flavour = (spec.data.len() + spec.evs.len() + spec.piece + spec.fail_at % 7) % 8;
+    let name = match flavour {
+        0 => format!("res-{n}"),
+        1 => format!("ресурс/{n}/ключ ✓"),
+        2 => format!("{n} with spaces, \"quotes\", ~0 ~1 / and \\ and \u{0} nul"),
+        3 => format!("{n}{}", "k".repeat(if n % 8 == 0 { 70_000 } else { 300 })),
+        4 => format!("{n}"),
+        5 => format!("  MiXeD Case Key {n} \t "),
+        6 => format!("Ünïcödé-ÀÉÎ-{n}-ß"),
+        _ => format!("/_svs/open#{n}"),
+    };
     specs().lock().unwrap().insert(name.clone(), spec);
     name
 }
@@ -698,7 +742,14 @@ fn pulled_of(r: Result<Option<RawFrame>, String>, problems: &mut Vec<String>) ->
 }
 
 fn do_cancel(conn: &mut Conn, sv: &Servers, stream_id: u64, notify: bool) -> Result<(), String> {
-    let body = beve::to_vec(&CancelRequest { stream_id, reason: "harness".into() }).unwrap();
+    let reason = match stream_id % 5 {
+        0 => String::new(),
+        1 => "harness".to_string(),
+        2 => "причина — отмена ✓ \u{0}\n\"quoted\"".to_string(),
+        3 => "r".repeat(70_000),
+        _ => format!("r{}", stream_id),
+    };
+    let body = beve::to_vec(&CancelRequest { stream_id, reason }).unwrap();
     match conn.call(sv, "/_svs/cancel", &body, notify)? {
         None => Ok(()),
         Some(f) => if f.h.ec == 0 { Ok(()) } else { Err(format!("cancel ec {}", f.h.ec)) },
@@ -737,6 +788,8 @@ struct RawResult {
     failures: Vec<(String, String)>,
     /// the case cannot be compared with the model (zstd produced a different stream on the recording pull)
     skip: bool,
+    /// the long-lived object (pooled connection / client) the case ran on: its recent op lines are part of a replay
+    pool: Option<String>,
 }
 
 #[derive(Default)]
@@ -781,6 +834,7 @@ impl OracleState {
 }
 
 fn exec_raw(sv: &mut Servers, out: &mut Out, idx: &str, p: &Params, script: &str) -> Option<RawResult> {
+    sv.addr(&p.srv, &p.kind, p.comp, p.chunk, p.depth, p.level)?;
     let built = build(p)?;
     let resource = register(built.spec.clone());
     let mut failures: Vec<(String, String)> = Vec::new();
@@ -825,7 +879,13 @@ fn exec_raw(sv: &mut Servers, out: &mut Out, idx: &str, p: &Params, script: &str
     let mut pulls: Vec<Pulled> = Vec::new();
     let mut n_tokens = 0usize;
     let mut skip = false;
-    match Conn::connect(sv, &p.srv, addr) {
+    let pool_name = format!("raw|{}|{}", p.srv, addr);
+    let pool_key: Option<String> = Some(pool_name.clone());
+    let pooled = match sv.conns.remove(&pool_name) {
+        Some(c) => Ok(c),
+        None => Conn::connect(sv, &p.srv, addr),
+    };
+    match pooled {
         Err(e) => {
             failures.push(("svs.raw.connect".into(), e));
             obs.push("noconn".into());
@@ -844,6 +904,7 @@ fn exec_raw(sv: &mut Servers, out: &mut Out, idx: &str, p: &Params, script: &str
                     // oracle state
                     let mut st = OracleState::default();
                     let mut shape = Vec::new();
+                    let mut second_ids: Vec<u64> = Vec::new();
                     for t in script.split(',') {
                         n_tokens += 1;
                         if p.speed == 'c' {
@@ -927,6 +988,50 @@ fn exec_raw(sv: &mut Servers, out: &mut Out, idx: &str, p: &Params, script: &str
                                     }
                                 }
                             }
+                            "w" => {
+                                // a SECOND stream of the same resource is opened now and left open after one pull;
+                                // the following tokens still address the first stream's id
+                                match do_open(&mut conn, sv, &resource) {
+                                    Ok(o2) => {
+                                        if o2.stream_id == open.stream_id {
+                                            failures.push(("svs.raw.id_reused".into(), format!("a stream opened later got the id {} of the stream this case is still addressing", o2.stream_id)));
+                                        }
+                                        let pl = do_next(&mut conn, sv, o2.stream_id, &mut shape);
+                                        obs.push(format!("second({})", show_pulled(&pl, stream_known)));
+                                        second_ids.push(o2.stream_id);
+                                    }
+                                    Err(e) => {
+                                        failures.push(("svs.raw.open_failed".into(), e));
+                                        obs.push("second(open-failed)".into());
+                                    }
+                                }
+                            }
+                            "u" => {
+                                // `next` for an id nobody was given: 0, the top of the range, far beyond the counter
+                                let bogus = match open.stream_id % 3 { 0 => 0, 1 => u64::MAX, _ => open.stream_id + 1_000_000_007 };
+                                let pl = do_next(&mut conn, sv, bogus, &mut shape);
+                                if let Pulled::Chunk { .. } = &pl {
+                                    failures.push(("svs.raw.unknown_id_not_error".into(), format!("a `next` for the never-issued stream id {bogus} returned a chunk")));
+                                }
+                                obs.push(match &pl { Pulled::Chunk { .. } => "chunk".into(), Pulled::Err => "err".into(), Pulled::Bad(e) => format!("bad({e})") });
+                            }
+                            "m" => {
+                                // a `next` whose body is not BEVE { stream_id }: answered with an error, the stream is not touched
+                                let bodies: [&[u8]; 4] = [&[], &[0xff, 0x00, 0x13], b"{\"stream_id\":1}", &[0x01]];
+                                let r = conn.call(sv, "/_svs/next", bodies[(open.stream_id % 4) as usize], false);
+                                obs.push(match pulled_of(r, &mut Vec::new()) { Pulled::Chunk { .. } => "chunk".into(), Pulled::Err => "err".into(), Pulled::Bad(e) => format!("bad({e})") });
+                            }
+                            "j" => {
+                                // a `cancel` whose body does not parse: acknowledged, releases nothing
+                                let r = conn.call(sv, "/_svs/cancel", &[0xff, 0x01], false);
+                                obs.push(match r { Ok(Some(f)) if f.h.ec == 0 => "ack".into(), Ok(_) => "nack".into(), Err(e) => format!("bad({e})") });
+                            }
+                            "o" => {
+                                // `open` of a resource the producer does not know
+                                let body = beve::to_vec(&OpenRequest { resource: format!("no such resource {}", open.stream_id) }).unwrap();
+                                let r = conn.call(sv, "/_svs/open", &body, false);
+                                obs.push(match r { Ok(Some(f)) if f.h.ec != 0 => "noent".into(), Ok(_) => "opened".into(), Err(e) => format!("bad({e})") });
+                            }
                             "c" | "k" => {
                                 match do_cancel(&mut conn, sv, open.stream_id, t == "k") {
                                     Ok(()) => obs.push(if t == "c" { "ack".into() } else { "-".into() }),
@@ -939,6 +1044,9 @@ fn exec_raw(sv: &mut Servers, out: &mut Out, idx: &str, p: &Params, script: &str
                             }
                             _ => return None,
                         }
+                    }
+                    for id2 in second_ids {
+                        let _ = do_cancel(&mut conn, sv, id2, true);
                     }
                     for s in shape {
                         failures.push(("svs.raw.wire_shape".into(), s));
@@ -975,7 +1083,21 @@ fn exec_raw(sv: &mut Servers, out: &mut Out, idx: &str, p: &Params, script: &str
                     }
                 }
             }
-            conn.close(sv);
+            let transport_trouble = failures.iter().any(|(sig, _)| {
+                ["timeout", "closed", "connect", "read", "write", "ws", "send", "malformed", "open_failed", "cancel_failed"].iter().any(|w| sig.contains(w))
+            });
+            if transport_trouble {
+                conn.close(sv);
+            } else {
+                if sv.conns.len() >= MAX_POOLED_CONNS {
+                    if let Some(k) = sv.conns.keys().next().cloned() {
+                        if let Some(old) = sv.conns.remove(&k) {
+                            old.close(sv);
+                        }
+                    }
+                }
+                sv.conns.insert(pool_name, conn);
+            }
         }
     }
     if let Some((_, g)) = &built.spec.gate {
@@ -983,7 +1105,7 @@ fn exec_raw(sv: &mut Servers, out: &mut Out, idx: &str, p: &Params, script: &str
     }
     unregister(&resource);
     let nontrivial = pulls.len() >= 2 || n_tokens >= 3;
-    Some(RawResult { op, obs: obs.join(" "), nontrivial, failures, skip })
+    Some(RawResult { op, obs: obs.join(" "), nontrivial, failures, skip, pool: pool_key })
 }
 
 fn first_diff(a: &[u8], b: &[u8]) -> Option<usize> {
@@ -994,6 +1116,7 @@ fn first_diff(a: &[u8], b: &[u8]) -> Option<usize> {
 // two streams open at once on one connection
 // ------------------------------------------------------------------------------------------
 fn exec_duo(sv: &mut Servers, out: &mut Out, idx: &str, pa: &Params, pb: &Params, script: &str) -> Option<RawResult> {
+    let pool_key: Option<String> = None;
     let (ba, bb) = (build(pa)?, build(pb)?);
     let (ra, rb) = (register(ba.spec.clone()), register(bb.spec.clone()));
     let mut failures: Vec<(String, String)> = Vec::new();
@@ -1078,7 +1201,7 @@ fn exec_duo(sv: &mut Servers, out: &mut Out, idx: &str, pa: &Params, pb: &Params
     }
     unregister(&ra);
     unregister(&rb);
-    Some(RawResult { op, obs: obs.join(" "), nontrivial: steps >= 3, failures, skip: false })
+    Some(RawResult { op, obs: obs.join(" "), nontrivial: steps >= 3, failures, skip: false, pool: pool_key })
 }
 
 fn params_from_duo(w: &[&str]) -> Option<(Params, Params, String)> {
@@ -1212,7 +1335,7 @@ fn finish_stall(job: StallJob, idx: &str) -> RawResult {
             format!("{idx} err")
         }
     };
-    RawResult { op, obs, nontrivial: true, failures, skip }
+    RawResult { op, obs, nontrivial: true, failures, skip, pool: None }
 }
 
 // ------------------------------------------------------------------------------------------
@@ -1225,6 +1348,7 @@ fn pat(a: usize, b: usize, n: usize) -> Vec<u8> {
 }
 
 fn exec_conc(sv: &mut Servers, out: &mut Out, idx: &str, srv: &str, chunk: usize, depth: usize, n: usize, rounds: usize, l: usize) -> Option<RawResult> {
+    let pool_key: Option<String> = None;
     let op = format!("conc {idx} {srv} {chunk} {depth} {n} {rounds} {l}");
     out.begin(&op);
     let addr = sv.addr(srv, "reader", 0, chunk, depth, 3)?;
@@ -1327,7 +1451,7 @@ fn exec_conc(sv: &mut Servers, out: &mut Out, idx: &str, srv: &str, chunk: usize
         }
     }
     let obs = format!("{idx} conc {} {}", if all_distinct { "distinct" } else { "same" }, toks.join(" "));
-    Some(RawResult { op, obs, nontrivial: true, failures, skip: false })
+    Some(RawResult { op, obs, nontrivial: true, failures, skip: false, pool: pool_key })
 }
 
 // ------------------------------------------------------------------------------------------
@@ -1335,6 +1459,7 @@ fn exec_conc(sv: &mut Servers, out: &mut Out, idx: &str, srv: &str, chunk: usize
 // or an error.  Every chunk must go to exactly one of them; exactly one `last` overall.
 // ------------------------------------------------------------------------------------------
 fn exec_cnext(sv: &mut Servers, out: &mut Out, idx: &str, p: &Params, k: usize) -> Option<RawResult> {
+    let pool_key: Option<String> = None;
     let built = build(p)?;
     let resource = register(built.spec.clone());
     let stream_token = stream_tok(&built.logical, built.is_pattern);
@@ -1414,7 +1539,7 @@ fn exec_cnext(sv: &mut Servers, out: &mut Out, idx: &str, p: &Params, k: usize) 
     unregister(&resource);
     toks.sort();
     let obs = format!("{idx} cnext {}", toks.join(" ")).trim_end().to_string();
-    Some(RawResult { op, obs, nontrivial: true, failures, skip: false })
+    Some(RawResult { op, obs, nontrivial: true, failures, skip: false, pool: pool_key })
 }
 
 // ------------------------------------------------------------------------------------------
@@ -1457,6 +1582,10 @@ enum HlOut {
 }
 
 fn exec_hl(sv: &mut Servers, out: &mut Out, idx: &str, p: &Params, client: &str, puller: &str) -> Option<RawResult> {
+    sv.addr(&p.srv, &p.kind, p.comp, p.chunk, p.depth, p.level)?;
+    if sv.sync_clients.len() >= MAX_POOLED_CONNS { let k = sv.sync_clients.keys().next().cloned(); if let Some(k) = k { sv.sync_clients.remove(&k); } }
+    if sv.async_clients.len() >= MAX_POOLED_CONNS { let k = sv.async_clients.keys().next().cloned(); if let Some(k) = k { sv.async_clients.remove(&k); } }
+    if sv.ws_clients.len() >= MAX_POOLED_CONNS { let k = sv.ws_clients.keys().next().cloned(); if let Some(k) = k { sv.ws_clients.remove(&k); } }
     let built = build(p)?;
     let resource = register(built.spec.clone());
     let mut failures: Vec<(String, String)> = Vec::new();
@@ -1473,95 +1602,195 @@ fn exec_hl(sv: &mut Servers, out: &mut Out, idx: &str, p: &Params, client: &str,
     let variant = p.variant.clone();
     let kind = p.kind.clone();
     let (seed, len) = (p.seed, p.len);
+    let pool_name = format!("hl|{}|{}|{}", client, p.srv, addr);
+    let pool_key: Option<String> = Some(pool_name.clone());
+    let budget = WATCHDOG + Duration::from_secs(10);
+    let file_path = out.dir.join(format!("svs-file-{}.bin", idx));
+    let fpath = file_path.clone();
+    // a consumer for `pull_consume(_async)`: `cerr` reads everything then fails, `cpart` reads 16 bytes and
+    // returns them, `cpanic` reads 16 bytes and panics (payload kind varies)
+    fn consume(kind: &str, reader: &mut dyn Read, salt: usize) -> Result<Vec<u8>, repe::RepeError> {
+        let mut got = Vec::new();
+        match kind {
+            "cerr" => {
+                reader.read_to_end(&mut got)?;
+                Err(repe::RepeError::Io(io::Error::other("consumer rejects")))
+            }
+            "cpart" | "cpanic" => {
+                let mut small = [0u8; 16];
+                let mut n = 0;
+                while n < 16 {
+                    let k = reader.read(&mut small[n..])?;
+                    if k == 0 {
+                        break;
+                    }
+                    n += k;
+                }
+                got.extend_from_slice(&small[..n]);
+                if kind == "cpanic" {
+                    match salt % 3 {
+                        0 => panic!("consumer panic (str)"),
+                        1 => panic!("{}", format!("consumer panic {}", salt)),
+                        _ => std::panic::panic_any(salt as u32),
+                    }
+                }
+                Ok(got)
+            }
+            _ => {
+                reader.read_to_end(&mut got)?;
+                Ok(got)
+            }
+        }
+    }
+    let salt = p.len + p.chunk;
     let result: HlOut = match client {
         "sync" => {
             let (tx, rx) = std::sync::mpsc::channel();
+            let pooled = sv.sync_clients.get(&pool_name).cloned();
             std::thread::spawn(move || {
-                let r = (|| -> Result<HlOut, repe::RepeError> {
-                    let c = repe::Client::connect(addr)?;
-                    Ok(match pl.as_str() {
-                        "vec" => HlOut::Bytes(repe::pull_to_vec(&c, &res)?),
-                        "value" => match variant.as_str() {
-                            "unit" => { repe::pull_value::<()>(&c, &res)?; HlOut::ValueOk(true) }
-                            "str" => { let s: String = repe::pull_value(&c, &res)?; HlOut::ValueOk(Some(ValueCase::Str(s)) == spec.value) }
-                            _ => { let r: Rec = repe::pull_value(&c, &res)?; HlOut::ValueOk(r == make_rec(seed, len)) }
-                        },
-                        "typed" => if kind == "typed:f64" {
-                            let v: Vec<f64> = repe::pull_typed_slice(&c, &res)?;
-                            HlOut::ValueOk(spec.typed_f64.as_ref().map(|w| w.iter().map(|x| x.to_bits()).eq(v.iter().map(|x| x.to_bits()))).unwrap_or(false))
-                        } else {
-                            let v: Vec<u8> = repe::pull_typed_slice(&c, &res)?;
-                            HlOut::ValueOk(spec.typed_u8.as_ref().map(|w| **w == v).unwrap_or(false))
-                        },
-                        _ => {
-                            let v: Vec<Complex<f32>> = repe::pull_complex_slice(&c, &res)?;
-                            HlOut::ValueOk(spec.complex.as_ref().map(|w| w.len() == v.len() && w.iter().zip(v.iter()).all(|(a, b)| a.re.to_bits() == b.re.to_bits() && a.im.to_bits() == b.im.to_bits())).unwrap_or(false))
-                        }
-                    })
-                })();
-                let _ = tx.send(match r { Ok(x) => x, Err(e) => HlOut::Err(err_class(&e)) });
+                let mut keep: Option<Arc<repe::Client>> = None;
+                let r = catch(|| {
+                    (|| -> Result<HlOut, repe::RepeError> {
+                        let c = match pooled {
+                            Some(c) => c,
+                            None => Arc::new(repe::Client::connect(addr)?),
+                        };
+                        keep = Some(c.clone());
+                        let c: &repe::Client = &c;
+                        Ok(match pl.as_str() {
+                            "vec" => HlOut::Bytes(repe::pull_to_vec(c, &res)?),
+                            "file" => {
+                                repe::pull_to_file(c, &res, &fpath)?;
+                                HlOut::Bytes(std::fs::read(&fpath)?)
+                            }
+                            "cerr" | "cpart" | "cpanic" | "call" => {
+                                let k = pl.clone();
+                                HlOut::Bytes(repe::pull_consume(c, &res, move |r| consume(&k, r, salt))?)
+                            }
+                            "value" => match variant.as_str() {
+                                "unit" => { repe::pull_value::<()>(c, &res)?; HlOut::ValueOk(true) }
+                                "str" => { let s: String = repe::pull_value(c, &res)?; HlOut::ValueOk(Some(ValueCase::Str(s)) == spec.value) }
+                                _ => { let r: Rec = repe::pull_value(c, &res)?; HlOut::ValueOk(r == make_rec(seed, len)) }
+                            },
+                            "typed" => if kind == "typed:f64" {
+                                let v: Vec<f64> = repe::pull_typed_slice(c, &res)?;
+                                HlOut::ValueOk(spec.typed_f64.as_ref().map(|w| w.iter().map(|x| x.to_bits()).eq(v.iter().map(|x| x.to_bits()))).unwrap_or(false))
+                            } else {
+                                let v: Vec<u8> = repe::pull_typed_slice(c, &res)?;
+                                HlOut::ValueOk(spec.typed_u8.as_ref().map(|w| **w == v).unwrap_or(false))
+                            },
+                            _ => {
+                                let v: Vec<Complex<f32>> = repe::pull_complex_slice(c, &res)?;
+                                HlOut::ValueOk(spec.complex.as_ref().map(|w| w.len() == v.len() && w.iter().zip(v.iter()).all(|(a, b)| a.re.to_bits() == b.re.to_bits() && a.im.to_bits() == b.im.to_bits())).unwrap_or(false))
+                            }
+                        })
+                    })()
+                });
+                let (o, panicked) = match r {
+                    Ok(Ok(x)) => (x, false),
+                    Ok(Err(e)) => (HlOut::Err(err_class(&e)), false),
+                    Err(_) => (HlOut::Err("panic".into()), true),
+                };
+                // a consumer panic unwinds through the puller: that client is not reused
+                let _ = tx.send((o, if panicked { None } else { keep }));
             });
-            rx.recv_timeout(WATCHDOG + Duration::from_secs(10)).unwrap_or(HlOut::Timeout)
+            match rx.recv_timeout(budget) {
+                Ok((o, keep)) => {
+                    match (&o, keep) {
+                        (HlOut::Err(e), _) if e.starts_with("connect") => { sv.sync_clients.remove(&pool_name); }
+                        (_, Some(c)) => { sv.sync_clients.insert(pool_name.clone(), c); }
+                        (_, None) => { sv.sync_clients.remove(&pool_name); }
+                    }
+                    o
+                }
+                Err(_) => {
+                    sv.sync_clients.remove(&pool_name);
+                    HlOut::Timeout
+                }
+            }
         }
         _ => {
             let is_ws = client == "wsc";
-            sv.rt.block_on(async move {
+            let pooled_ws = if is_ws { sv.ws_clients.get(&pool_name).cloned() } else { None };
+            let pooled_async = if is_ws { None } else { sv.async_clients.get(&pool_name).cloned() };
+            let (o, keep_ws, keep_async) = sv.rt.block_on(async move {
+                macro_rules! pulls {
+                    ($c:expr) => {{
+                        let c = $c;
+                        let r: Result<HlOut, repe::RepeError> = async {
+                            Ok(match pl.as_str() {
+                                "vec" => HlOut::Bytes(repe::pull_to_vec_async(&c, &res).await?),
+                                "file" => {
+                                    repe::pull_to_file_async(&c, &res, &fpath).await?;
+                                    HlOut::Bytes(std::fs::read(&fpath)?)
+                                }
+                                "cerr" | "cpart" | "cpanic" | "call" => {
+                                    let k = pl.clone();
+                                    HlOut::Bytes(repe::pull_consume_async(&c, &res, move |mut r| consume(&k, &mut r, salt)).await?)
+                                }
+                                "value" => match variant.as_str() {
+                                    "unit" => { repe::pull_value_async::<(), _>(&c, &res).await?; HlOut::ValueOk(true) }
+                                    "str" => { let s: String = repe::pull_value_async(&c, &res).await?; HlOut::ValueOk(Some(ValueCase::Str(s)) == spec.value) }
+                                    _ => { let r: Rec = repe::pull_value_async(&c, &res).await?; HlOut::ValueOk(r == make_rec(seed, len)) }
+                                },
+                                "typed" => if kind == "typed:f64" {
+                                    let v: Vec<f64> = repe::pull_typed_slice_async(&c, &res).await?;
+                                    HlOut::ValueOk(spec.typed_f64.as_ref().map(|w| w.iter().map(|x| x.to_bits()).eq(v.iter().map(|x| x.to_bits()))).unwrap_or(false))
+                                } else {
+                                    let v: Vec<u8> = repe::pull_typed_slice_async(&c, &res).await?;
+                                    HlOut::ValueOk(spec.typed_u8.as_ref().map(|w| **w == v).unwrap_or(false))
+                                },
+                                _ => {
+                                    let v: Vec<Complex<f32>> = repe::pull_complex_slice_async(&c, &res).await?;
+                                    HlOut::ValueOk(spec.complex.as_ref().map(|w| w.len() == v.len() && w.iter().zip(v.iter()).all(|(a, b)| a.re.to_bits() == b.re.to_bits() && a.im.to_bits() == b.im.to_bits())).unwrap_or(false))
+                                }
+                            })
+                        }.await;
+                        match r { Ok(x) => x, Err(e) => HlOut::Err(err_class(&e)) }
+                    }};
+                }
                 let fut = async {
-                    macro_rules! pulls {
-                        ($c:expr) => {{
-                            let c = $c;
-                            let r: Result<HlOut, repe::RepeError> = async {
-                                Ok(match pl.as_str() {
-                                    "vec" => HlOut::Bytes(repe::pull_to_vec_async(&c, &res).await?),
-                                    "value" => match variant.as_str() {
-                                        "unit" => { repe::pull_value_async::<(), _>(&c, &res).await?; HlOut::ValueOk(true) }
-                                        "str" => { let s: String = repe::pull_value_async(&c, &res).await?; HlOut::ValueOk(Some(ValueCase::Str(s)) == spec.value) }
-                                        _ => { let r: Rec = repe::pull_value_async(&c, &res).await?; HlOut::ValueOk(r == make_rec(seed, len)) }
-                                    },
-                                    "typed" => if kind == "typed:f64" {
-                                        let v: Vec<f64> = repe::pull_typed_slice_async(&c, &res).await?;
-                                        HlOut::ValueOk(spec.typed_f64.as_ref().map(|w| w.iter().map(|x| x.to_bits()).eq(v.iter().map(|x| x.to_bits()))).unwrap_or(false))
-                                    } else {
-                                        let v: Vec<u8> = repe::pull_typed_slice_async(&c, &res).await?;
-                                        HlOut::ValueOk(spec.typed_u8.as_ref().map(|w| **w == v).unwrap_or(false))
-                                    },
-                                    _ => {
-                                        let v: Vec<Complex<f32>> = repe::pull_complex_slice_async(&c, &res).await?;
-                                        HlOut::ValueOk(spec.complex.as_ref().map(|w| w.len() == v.len() && w.iter().zip(v.iter()).all(|(a, b)| a.re.to_bits() == b.re.to_bits() && a.im.to_bits() == b.im.to_bits())).unwrap_or(false))
-                                    }
-                                })
-                            }.await;
-                            match r { Ok(x) => x, Err(e) => HlOut::Err(err_class(&e)) }
-                        }};
-                    }
                     if is_ws {
-                        match repe::WebSocketClient::connect(&format!("ws://{}/repe", addr)).await {
-                            Ok(c) => pulls!(c),
-                            Err(e) => HlOut::Err(format!("connect:{e}")),
+                        let c = match pooled_ws {
+                            Some(c) => Ok(c),
+                            None => repe::WebSocketClient::connect(&format!("ws://{}/repe", addr)).await,
+                        };
+                        match c {
+                            Ok(c) => (pulls!(c.clone()), Some(c), None),
+                            Err(e) => (HlOut::Err(format!("connect:{e}")), None, None),
                         }
                     } else {
-                        match repe::AsyncClient::connect(addr).await {
-                            Ok(c) => pulls!(c),
-                            Err(e) => HlOut::Err(format!("connect:{e}")),
+                        let c = match pooled_async {
+                            Some(c) => Ok(c),
+                            None => repe::AsyncClient::connect(addr).await,
+                        };
+                        match c {
+                            Ok(c) => (pulls!(c.clone()), None, Some(c)),
+                            Err(e) => (HlOut::Err(format!("connect:{e}")), None, None),
                         }
                     }
                 };
-                match tokio::time::timeout(WATCHDOG + Duration::from_secs(10), fut).await {
+                match tokio::time::timeout(budget, fut).await {
                     Ok(x) => x,
-                    Err(_) => HlOut::Timeout,
+                    Err(_) => (HlOut::Timeout, None, None),
                 }
-            })
+            });
+            match keep_ws { Some(c) => { sv.ws_clients.insert(pool_name.clone(), c); } None => { sv.ws_clients.remove(&pool_name); } }
+            match keep_async { Some(c) => { sv.async_clients.insert(pool_name.clone(), c); } None => { sv.async_clients.remove(&pool_name); } }
+            o
         }
     };
+    let _ = std::fs::remove_file(&file_path);
     unregister(&resource);
-    let needs_beve = puller != "vec";
+    let needs_beve = matches!(puller, "value" | "typed" | "complex");
+    let expect_bytes: Vec<u8> = if puller == "cpart" || puller == "cpanic" { built.logical[..built.logical.len().min(16)].to_vec() } else { built.logical.clone() };
     let format_is_beve = p.kind == "value" || p.kind.starts_with("typed") || p.kind == "complex" || p.kind == "writer:1";
     let obs = match &result {
         HlOut::Bytes(b) => {
             if p.end != End::Ok {
                 failures.push(("svs.hl.fail_returned_ok".into(), format!("{puller} over {client}: producer ended `{}` but the puller returned {} bytes", p.end.tok(), b.len())));
-            } else if *b != built.logical {
-                failures.push((format!("svs.hl.{puller}.bytes_mismatch"), format!("{client}: got {} bytes, producer's logical bytes {}; first difference {:?}", b.len(), built.logical.len(), first_diff(b, &built.logical))));
+            } else if *b != expect_bytes {
+                failures.push((format!("svs.hl.{puller}.bytes_mismatch"), format!("{client}: got {} bytes, expected {} of the producer's {} logical bytes; first difference {:?}", b.len(), expect_bytes.len(), built.logical.len(), first_diff(b, &expect_bytes))));
             }
             if stream_token.starts_with("z:") { format!("{idx} ok {}", b.len()) } else { format!("{idx} ok {} {}", b.len(), fnv(b)) }
         }
@@ -1576,7 +1805,7 @@ fn exec_hl(sv: &mut Servers, out: &mut Out, idx: &str, p: &Params, client: &str,
         HlOut::Err(e) => {
             if e.starts_with("connect:") {
                 failures.push(("svs.hl.connect".into(), e.clone()));
-            } else if p.end == End::Ok && !(needs_beve && !format_is_beve) {
+            } else if p.end == End::Ok && !(needs_beve && !format_is_beve) && puller != "cerr" && puller != "cpanic" {
                 failures.push(("svs.hl.unexpected_error".into(), format!("{puller} over {client}: healthy producer, puller returned {e}")));
             }
             format!("{idx} err")
@@ -1586,7 +1815,7 @@ fn exec_hl(sv: &mut Servers, out: &mut Out, idx: &str, p: &Params, client: &str,
             format!("{idx} timeout")
         }
     };
-    Some(RawResult { op, obs, nontrivial: built.logical.len() > p.chunk || p.end != End::Ok, failures, skip: false })
+    Some(RawResult { op, obs, nontrivial: built.logical.len() > p.chunk || p.end != End::Ok, failures, skip: false, pool: pool_key })
 }
 
 // ------------------------------------------------------------------------------------------
@@ -1624,6 +1853,7 @@ struct Runner {
     out: Out,
     n: usize,
     timeouts: usize,
+    recent: HashMap<String, Vec<String>>,
 }
 
 impl Runner {
@@ -1632,8 +1862,18 @@ impl Runner {
             self.out.count("svs.zstd.second_pull_differs_skipped");
             return;
         }
+        // a replay of a case that ran on a long-lived connection / client starts with that object's recent cases
+        let mut ops: Vec<String> = r.pool.as_ref().and_then(|k| self.recent.get(k)).cloned().unwrap_or_default();
+        ops.push(r.op.clone());
+        if let Some(k) = &r.pool {
+            let h = self.recent.entry(k.clone()).or_default();
+            h.push(r.op.clone());
+            if h.len() > 3 {
+                h.remove(0);
+            }
+        }
         for (sig, detail) in &r.failures {
-            self.out.oracle_fail(sig, detail, &[r.op.clone()]);
+            self.out.oracle_fail(sig, detail, &ops);
             if sig.contains("timeout") {
                 self.timeouts += 1;
             }
@@ -1764,7 +2004,8 @@ fn base(srv: &str, kind: &str, comp: u8, chunk: usize, depth: usize) -> Params {
     let level = if comp == 1 {
         let k = LEVEL_ROT.fetch_add(1, Ordering::Relaxed);
         match k % 40 {
-            7 => 19,
+            7 if k % 80 == 7 => 19,
+            31 if k % 80 == 31 => -131072,      // ZSTD_minCLevel
             23 if k % 200 == 23 => 22,
             _ => ZSTD_LEVELS[(k % 5) as usize],
         }
@@ -1822,7 +2063,7 @@ fn boundary_lengths(chunk: usize, kmax: usize) -> Vec<usize> {
 fn main() {
     let args = Args::parse();
     quiet_panics();
-    let mut run = Runner { sv: Servers::new(), out: Out::new(&args.out), n: 0, timeouts: 0 };
+    let mut run = Runner { sv: Servers::new(), out: Out::new(&args.out), n: 0, timeouts: 0, recent: HashMap::new() };
     run.out.rule = "real Server (tcp) and WebSocketServer (ws), every producer kind (value: unit/string/struct; typed u8/f64; complex f32; reader with 1..100000-byte reads, Interrupted reads; writer with random write/flush scripts), chunk sizes {1,2,3,7,64,4096,1MiB}, payload lengths k*chunk-1,k*chunk,k*chunk+1 for k=0..4 plus random, depths 0..8, zstd on/off (for zstd the compressed stream is recorded from a separate pull of the same resource), slow producer / slow consumer, failure (Err and panic) injected at k*chunk-1,k*chunk,k*chunk+1 written bytes, scripts of next/cancel (request and notify)/next-past-the-end; then pull_to_vec, pull_value, pull_typed_slice, pull_complex_slice and their async forms over Client, AsyncClient and WebSocketClient. Distinct by op line without its index; non-trivial = at least two pulls or three script steps (raw), payload longer than one chunk or failing producer (hl)".into();
     if let Some(ops) = args.replay_ops() {
         for l in ops {
@@ -1937,20 +2178,28 @@ fn main() {
         }
     }
     // (D) random fragmentation / lengths / everything
+    let odd_chunks: Vec<usize> = (0..6).map(|_| 1 + r.below(10_000) as usize).collect();
     let n_random = if thorough { 30000 } else { 1200 };
     for _ in 0..n_random {
-        let chunk = *r.pick(&[1usize, 2, 3, 7, 64, 4096, 4096, 64, 7]);
+        let chunk = match r.below(12) {
+            // io::copy's 8 KiB buffer boundary, 64 KiB ± 1, odd sizes, anything up to 10000
+            0 => *r.pick(&[5usize, 100, 1000, 8191, 8192, 8193, 65535, 65536, 65537]),
+            1 => odd_chunks[r.below(odd_chunks.len() as u64) as usize],
+            _ => *r.pick(&[1usize, 2, 3, 7, 64, 4096, 4096, 64, 7]),
+        };
         let n = match r.below(5) { 0 => r.below(6) as usize, 1 => chunk * r.below(5) as usize, 2 => chunk * r.below(5) as usize + 1, 3 => (chunk * (1 + r.below(4) as usize)).saturating_sub(1), _ => r.below(6 * chunk as u64 + 2) as usize };
         let n = n.min(40 * chunk.max(8));
-        let kind = *r.pick(&kinds);
+        let kind = if r.chance(1, 12) { *r.pick(&["writer:1", "writer:2", "writer:3"]) } else { *r.pick(&kinds) };
         let comp = if r.chance(1, 3) { 1 } else { 0 };
         let srv_pick = *r.pick(&srvs);
-        let depth_pick = r.below(9) as usize;
+        // depths beyond the property's 0..8 now and then (a knob of the public API)
+        let depth_pick = if r.chance(1, 12) { *r.pick(&[16usize, 64, 1024]) } else { r.below(9) as usize };
         let mut p = sized(&mut r, base(srv_pick, kind, comp, chunk, depth_pick), n);
         if comp == 1 && (kind == "reader") { p.seed = 1 + r.below(1 << 30); }
         if kind == "reader" && r.chance(1, 4) { p.interrupt = 2 + r.below(3) as usize; }
         if kind.starts_with("writer") && comp == 1 { p.variant = format!("e={}", evs_tok(&p.evs).replace(',', "_")); }
-        let script = *r.pick(&["N,n", "N,n,n", "n,n,n", "N", "n,c,n", "c,n", "n,n,k,n,n", "N,c,n", "n,k,n", "N,k,n"]);
+        let script = *r.pick(&["N,n", "N,n,n", "n,n,n", "N", "n,c,n", "c,n", "n,n,k,n,n", "N,c,n", "n,k,n", "N,k,n",
+            "N,w,n,n", "n,c,w,n", "n,w,n,N,w,n", "w,N,n", "u,n,u,N,u", "m,n,m,N,m,n", "o,n,j,n,o,N,n", "n,j,N,n", "u,m,j,o,N,u", "n,u,c,u,n", "j,n,k,n,j"]);
         run.raw(&p, script);
     }
     // (E) failures at every chunk boundary +-1 written byte
@@ -2073,17 +2322,27 @@ fn main() {
                     }
                     run.hl(&p, client, puller);
                 }
+                // the consumer-closure entry points and the file pullers
+                for (kind, puller) in [("reader", "call"), ("writer:0", "call"), ("reader", "file"), ("writer:0", "file"), ("reader", "cpart"), ("writer:0", "cerr"), ("reader", "cpanic"), ("typed:u8", "cpart")] {
+                    rot += 1;
+                    let chunk = *r.pick(&[1usize, 3, 7, 64, 4096]);
+                    let target = match rot % 3 { 0 => chunk * (1 + r.below(4) as usize), 1 => r.below(20) as usize, _ => r.below(5 * chunk as u64 + 3) as usize };
+                    let target = target.min(30 * chunk.max(8));
+                    let mut p = sized(&mut r, base(srv, kind, comp, chunk, rot % 9), target);
+                    if comp == 1 && kind == "reader" { p.seed = 1 + r.below(1 << 30); }
+                    run.hl(&p, client, puller);
+                }
                 // failing producers through every puller family
-                for (kind, puller) in [("reader", "vec"), ("writer:0", "vec"), ("value", "value"), ("value", "vec")] {
+                for (kind, puller) in [("reader", "vec"), ("writer:0", "vec"), ("value", "value"), ("value", "vec"), ("reader", "call"), ("writer:0", "file")] {
                     rot += 1;
                     let chunk = *r.pick(&[1usize, 7, 64]);
                     let mut p = base(srv, kind, comp, chunk, rot % 9);
-                    p.end = if rot % 4 == 0 && kind != "value" { End::Vanish } else { End::Err };
+                    p.end = if rot % 4 == 0 { End::Vanish } else { End::Err };
                     let at = chunk * r.below(5) as usize + r.below(3) as usize;
                     match kind {
                         "reader" => { p.len = at + 10; p.fail_at = at.saturating_sub(1); p.piece = 3; }
                         "writer:0" => { p.evs = random_evs(&mut r, at.saturating_sub(1), chunk); }
-                        _ => { p.variant = "failseq".into(); p.len = at; }
+                        _ => { p.variant = if p.end == End::Vanish { "panicseq".into() } else { "failseq".into() }; p.len = at; }
                     }
                     run.hl(&p, client, puller);
                 }
